@@ -78,7 +78,7 @@ def gen_program(seed, k, ctx):
     # RoCC: straight-line programs only (known finding: the partner value of a deduplicated half of an
     # instruction pair is recovered by static inference, which fails or is wrong across control flow)
     depth = 1 if choice == ["gemmini"] else rng.choice([2, 3])
-    g = Gen(rng, max_depth=depth, max_inv=rng.choice([3, 4, 5]), acc_specs=specs, effects=True)
+    g = Gen(rng, max_depth=depth, max_inv=rng.choice([3, 4, 5]), acc_specs=specs, effects=True, index_vals=(choice != ["gemmini"]))
     text, argdom, opq = g.program()
     if choice == ["gemmini"]:
         text = text.replace("i32", "i64")
